@@ -50,6 +50,7 @@ def jobs(tier):
                     J.append(Job(b, "fork", P1 if q else P2, dict(p, readers=2, **cap), env, workers=8))
                     J.append(Job(b, "fork", P1 if q else P2, dict(p, readers=2, hold=1, ncb=0, **cap), env, workers=8))
                     J.append(Job(b, "fork", P1, dict(p, readers=1, hold=1, ncb=0, helpers=1, **cap), env, workers=8))
+                    J.append(Job(b, "fork", P1 if q else P2, dict(p, readers=1, hold=2, ncb=0, updater=1, **cap), env, workers=8))
     return J
 
 
